@@ -237,7 +237,7 @@ func (e *Explorer) exitCompletes(drv Drv) bool {
 	for _, k := range e.S.D.Exit {
 		found := false
 		for i := range e.S.Alpha {
-			if e.S.Alpha[i].Name == k && drv.Held&(1<<uint(i)) != 0 {
+			if !e.S.Alpha[i].IsAxis && e.S.Alpha[i].Code == keyCode(k) && drv.Held&(1<<uint(i)) != 0 {
 				found = true
 			}
 		}
